@@ -394,9 +394,18 @@ impl HttpServerBuilder {
             //   - priorities
             //   - rate limits
             //   - timeout request handlers with permit
-            safina::executor::schedule_blocking(move || request_handler_clone(req))
-                .await
-                .unwrap_or_else(|_| Response::text(500, "Server error"))
+            // Catch a handler's panic here, so it does not kill the thread pool's thread.
+            // The pool replaces a dead thread only when it gets more work.
+            // Until then, requests that are already queued would wait with no thread to run them.
+            safina::executor::schedule_blocking(move || {
+                std::panic::catch_unwind(std::panic::AssertUnwindSafe(move || {
+                    request_handler_clone(req)
+                }))
+            })
+            .await
+            .ok()
+            .and_then(Result::ok)
+            .unwrap_or_else(|| Response::text(500, "Server error"))
         };
         let conn_handler = move |permit, token, stream: async_net::TcpStream, addr| {
             let http_conn = HttpConn::new(addr, stream);
